@@ -4140,6 +4140,39 @@ where
         Ok(())
     }
 
+    /// Level 1 plus the Level 2 checks that do not depend on cell orientation; used to vet
+    /// deserialized input.
+    fn validate_loaded_structure(&self) -> Result<(), TdsValidationError>
+    where
+        T: CoordinateScalar,
+    {
+        for (_vertex_key, vertex) in &self.vertices {
+            if let Err(source) = (*vertex).is_valid() {
+                return Err(TdsError::InvalidVertex {
+                    vertex_id: vertex.uuid(),
+                    source,
+                });
+            }
+        }
+        for (_cell_key, cell) in &self.cells {
+            if let Err(source) = cell.is_valid() {
+                return Err(TdsError::InvalidCell {
+                    cell_id: cell.uuid(),
+                    source,
+                });
+            }
+        }
+        self.validate_vertex_mappings()?;
+        self.validate_cell_mappings()?;
+        self.validate_cell_vertex_keys()?;
+        self.validate_vertex_incidence()?;
+        self.validate_no_duplicate_cells()?;
+        let facet_to_cells = self.build_facet_to_cells_map()?;
+        Self::validate_facet_sharing_with_facet_to_cells_map(&facet_to_cells)?;
+        self.validate_neighbors_with_facet_to_cells_map(&facet_to_cells)?;
+        Ok(())
+    }
+
     /// Checks whether the triangulation data structure is structurally valid.
     ///
     /// This is a **Level 2 (TDS structural)** check in the validation hierarchy.
@@ -5130,6 +5163,17 @@ where
                 // Order: neighbors first, then incident cells (consistent with other call sites).
                 tds.assign_neighbors().map_err(de::Error::custom)?;
                 tds.assign_incident_cells().map_err(de::Error::custom)?;
+
+                // Reject documents that do not describe a structurally consistent complex
+                // (non-finite coordinates, cells with missing / repeated vertices, duplicate
+                // UUIDs or cells, over-shared facets) instead of loading them. Coherent
+                // orientation is deliberately left to `is_valid()` so that a re-ordered cell
+                // still loads and is reported by validation.
+                tds.validate_loaded_structure().map_err(|e| {
+                    de::Error::custom(format!(
+                        "deserialized triangulation is not structurally consistent: {e}"
+                    ))
+                })?;
 
                 Ok(tds)
             }
